@@ -1,8 +1,987 @@
-//! C05 — not implemented yet.
+//! C05 (parser side) — FEEL parsing is total: a result or an error, never a crash.
+//!
+//! Families
+//! * `lexer-tokens`   impl = model: the hook's token stream against `Dmn.Lexer.tokenize` on
+//!                    arbitrary Unicode fragments, random scope keys, random lexer flags.
+//! * `lexer-no-panic` impl ⊨ spec: the lexer answers with a token or an error (the property on
+//!                    the implementation alone); `lexer-progress`: every token other than
+//!                    YyUndef / YyEof moves the cursor forward.
+//! * `lalr-trace`     impl = model: the traced run of the real parser (states entered, tokens
+//!                    fetched, rules reduced, goto states, outcome) against the model of the
+//!                    driver loop over the regenerated tables (`Dmn.Lalr.step`).
+//! * `process`        VALIDATION, not proof: all parser entry points and `evaluate` (empty
+//!                    scope) in child processes with a wall-clock limit, on grammar-derived
+//!                    inputs, mutations of the string literals of the repository's own tests,
+//!                    arbitrary Unicode and nesting up to depth 200. A panic (site = file:line
+//!                    from the panic location), a process death or a timeout is a disagreement
+//!                    with the property.
 
-use crate::report::Report;
+use crate::c10::{compare_streams, impl_tokens, tokenize_request};
+use crate::model::Model;
+use crate::report::{Kind, Report};
+use crate::rng::Rng;
+use crate::util;
 use crate::Cfg;
+use dmntk_feel::values::Value;
+use dmntk_feel::{FeelNumber, Name, Scope};
+use dmntk_feel_parser::VerifTokenType as TT;
+use serde_json::json;
+use std::collections::HashSet;
+use std::sync::Mutex;
 
-pub fn run(_cfg: &Cfg) -> Report {
-  Report::new("C05", "not implemented")
+static LAST_PANIC: Mutex<Option<String>> = Mutex::new(None);
+
+fn install_hook() {
+  std::panic::set_hook(Box::new(|info| {
+    let loc = info.location().map(|l| format!("{}:{}", l.file(), l.line())).unwrap_or_else(|| "unknown".to_string());
+    if let Ok(mut g) = LAST_PANIC.lock() {
+      *g = Some(loc);
+    }
+  }));
 }
+
+/// Runs `f`; a panic becomes `Err(file:line)` of the panic location (path relative to /repo).
+fn located<T>(f: impl FnOnce() -> T) -> Result<T, String> {
+  if let Ok(mut g) = LAST_PANIC.lock() {
+    *g = None;
+  }
+  match util::guarded(f) {
+    Ok(v) => Ok(v),
+    Err(_) => {
+      let loc = LAST_PANIC.lock().ok().and_then(|g| g.clone()).unwrap_or_else(|| "unknown".to_string());
+      Err(loc.trim_start_matches("/repo/").to_string())
+    }
+  }
+}
+
+pub const ENTRIES: [&str; 8] = [
+  "parse_expression",
+  "parse_textual_expression",
+  "parse_textual_expressions",
+  "parse_boxed_expression",
+  "parse_context",
+  "parse_unary_tests",
+  "parse_name",
+  "parse_longest_name",
+];
+
+fn run_entry(entry: &str, input: &str, trace: bool) -> Result<Option<dmntk_feel::AstNode>, String> {
+  let scope = Scope::default();
+  let r = match entry {
+    "parse_expression" => dmntk_feel_parser::parse_expression(&scope, input, trace).map(Some),
+    "parse_textual_expression" => dmntk_feel_parser::parse_textual_expression(&scope, input, trace).map(Some),
+    "parse_textual_expressions" => dmntk_feel_parser::parse_textual_expressions(&scope, input, trace).map(Some),
+    "parse_boxed_expression" => dmntk_feel_parser::parse_boxed_expression(&scope, input, trace).map(Some),
+    "parse_context" => dmntk_feel_parser::parse_context(&scope, input, trace).map(Some),
+    "parse_unary_tests" => dmntk_feel_parser::parse_unary_tests(&scope, input, trace).map(Some),
+    "parse_name" => dmntk_feel_parser::parse_name(&scope, input, trace).map(|_| None),
+    "parse_longest_name" => dmntk_feel_parser::parse_longest_name(input).map(|_| None),
+    _ => return Err("unknown entry".into()),
+  };
+  r.map_err(|e| e.to_string())
+}
+
+/// Integer literals ≥ 1000 together with an iteration construct: evaluation may legitimately
+/// take long (the property excludes large iteration domains), so it is not attempted.
+fn evaluation_may_be_long(input: &str) -> bool {
+  let iterates = input.contains("..") || input.contains("for ") || input.contains("some ") || input.contains("every ");
+  let mut run = 0;
+  let mut big = false;
+  for c in input.chars() {
+    if c.is_ascii_digit() {
+      run += 1;
+      if run >= 4 {
+        big = true;
+      }
+    } else {
+      run = 0;
+    }
+  }
+  (iterates && big) || input.contains("**")
+}
+
+/// One input in the child: every entry point, then `evaluate` of what `parse_expression`
+/// built. One result word per step.
+fn observe(input: &str) -> Vec<String> {
+  let mut out = vec![];
+  let mut node = None;
+  for e in ENTRIES {
+    match located(|| run_entry(e, input, false)) {
+      Ok(Ok(n)) => {
+        if e == "parse_expression" {
+          node = n;
+        }
+        out.push("ok".to_string());
+      }
+      Ok(Err(_)) => out.push("err".to_string()),
+      Err(loc) => out.push(format!("panic@{}", loc)),
+    }
+  }
+  match node {
+    Some(n) if !evaluation_may_be_long(input) => {
+      let scope = Scope::default();
+      match located(|| dmntk_feel_evaluator::evaluate(&scope, &n)) {
+        Ok(Ok(v)) => out.push(if matches!(v, Value::Null(_)) { "null".to_string() } else { "value".to_string() }),
+        Ok(Err(_)) => out.push("err".to_string()),
+        Err(loc) => out.push(format!("panic@{}", loc)),
+      }
+    }
+    Some(_) => out.push("skipped".to_string()),
+    None => out.push("none".to_string()),
+  }
+  out
+}
+
+/// `vharness child c05 batch|trace …` (called from `main.rs::child_main`).
+pub fn child(args: &[String], stdin: &str) -> i32 {
+  install_hook();
+  match args.first().map(|s| s.as_str()) {
+    Some("batch") => {
+      use std::io::Write;
+      let inputs: Vec<String> = serde_json::from_str(stdin).unwrap_or_default();
+      let so = std::io::stdout();
+      for (i, inp) in inputs.iter().enumerate() {
+        // announce first: when the process dies the parent knows which input was running
+        {
+          let mut h = so.lock();
+          let _ = writeln!(h, "B {}", i);
+          let _ = h.flush();
+        }
+        let r = observe(inp);
+        let mut h = so.lock();
+        let _ = writeln!(h, "R {} {}", i, r.join(" "));
+        let _ = h.flush();
+      }
+      0
+    }
+    Some("trace") => {
+      let entry = args.get(1).cloned().unwrap_or_default();
+      let r = located(|| run_entry(&entry, stdin, true));
+      match r {
+        Ok(Ok(_)) => println!("\n#RESULT ok"),
+        Ok(Err(_)) => println!("\n#RESULT err"),
+        Err(loc) => println!("\n#RESULT panic@{}", loc),
+      }
+      0
+    }
+    _ => 2,
+  }
+}
+
+// ------------------------------------------------------------------------------------------
+// input generation
+// ------------------------------------------------------------------------------------------
+
+const NAMES: [&str; 10] = ["a", "b", "x", "y", "Full Name", "n-1", "item", "i", "k", "é"];
+const BIFS: [&str; 28] = [
+  "abs", "sum", "mean", "min", "max", "count", "substring", "string length", "upper case", "contains", "sublist", "append", "list contains", "flatten", "date", "time",
+  "date and time", "duration", "years and months duration", "number", "string", "floor", "decimal", "not", "sort", "get value", "is defined", "index of",
+];
+const TYPES: [&str; 9] = ["number", "string", "boolean", "date", "Any", "list<number>", "context<a: number>", "function<number> -> string", "range<number>"];
+
+fn gen_literal(rng: &mut Rng) -> String {
+  match rng.below(12) {
+    0 => format!("{}", rng.below(20)),
+    1 => format!("{}.{}", rng.below(100), rng.below(100)),
+    2 => format!(".{}", rng.below(10)),
+    3 => "true".into(),
+    4 => "false".into(),
+    5 => "null".into(),
+    6 => format!("\"{}\"", rng.pick(&["", "a", "a b", "é", "\\u00e9", "\\\"", "\\n", "\\uD83D\\uDC0E", "2021-01-01"])),
+    7 => format!("date(\"{}\")", rng.pick(&["2021-01-01", "2021-02-30", "-0001-01-01", "999999999-12-31", "x"])),
+    8 => format!("@\"{}\"", rng.pick(&["2021-01-01", "P1D", "10:00:00", "2021-01-01T10:00:00", "P1Y2M"])),
+    9 => format!("duration(\"{}\")", rng.pick(&["P1D", "P1Y", "PT1H", "-P1M", "P"])),
+    10 => format!("time(\"{}\")", rng.pick(&["10:00:00", "25:00:00", "10:00:00Z", "10:00:00+01:00", "10:00:00@Europe/Warsaw"])),
+    _ => format!("{}", rng.below(3)),
+  }
+}
+
+fn gen_expr(rng: &mut Rng, depth: u32) -> String {
+  if depth == 0 {
+    return if rng.chance(1, 3) { rng.pick(&NAMES).to_string() } else { gen_literal(rng) };
+  }
+  let d = depth - 1;
+  match rng.below(30) {
+    0 | 1 => format!("{} {} {}", gen_expr(rng, d), rng.pick(&["+", "-", "*", "/", "**"]), gen_expr(rng, d)),
+    2 => format!("{}{}{}", gen_expr(rng, d), rng.pick(&["+", "-", "*", "/"]), gen_expr(rng, d)),
+    3 => format!("{} {} {}", gen_expr(rng, d), rng.pick(&["=", "!=", "<", "<=", ">", ">="]), gen_expr(rng, d)),
+    4 => format!("{} {} {}", gen_expr(rng, d), rng.pick(&["and", "or"]), gen_expr(rng, d)),
+    5 => format!("-{}", gen_expr(rng, d)),
+    6 => format!("({})", gen_expr(rng, d)),
+    7 => format!("if {} then {} else {}", gen_expr(rng, d), gen_expr(rng, d), gen_expr(rng, d)),
+    8 => format!("for {} in {} return {}", rng.pick(&["i", "x y", "k"]), gen_expr(rng, d), gen_expr(rng, d)),
+    9 => format!("for i in {}..{}, k in [{}] return {}", rng.below(4), rng.below(6), gen_expr(rng, d), gen_expr(rng, d)),
+    10 => format!("{} {} in {} satisfies {}", rng.pick(&["some", "every"]), rng.pick(&["i", "x y"]), gen_expr(rng, d), gen_expr(rng, d)),
+    11 => format!("[{}]", (0..rng.below(4)).map(|_| gen_expr(rng, d)).collect::<Vec<_>>().join(", ")),
+    12 => format!("{}[{}]", gen_expr(rng, d), gen_expr(rng, d)),
+    13 => format!("{}[item {} {}]", gen_expr(rng, d), rng.pick(&["<", ">", "="]), gen_expr(rng, d)),
+    14 => format!("{{{}}}", (0..rng.below(3)).map(|_| format!("{}: {}", rng.pick(&["a", "b", "Full Name", "\"s\""]), gen_expr(rng, d))).collect::<Vec<_>>().join(", ")),
+    15 => format!("{}.{}", gen_expr(rng, d), rng.pick(&["a", "b", "year", "Full Name"])),
+    16 | 17 => {
+      let n = rng.below(4);
+      format!("{}({})", rng.pick(&BIFS), (0..n).map(|_| gen_expr(rng, d)).collect::<Vec<_>>().join(", "))
+    }
+    18 => format!("{}({}: {})", rng.pick(&BIFS), rng.pick(&["list", "n", "string", "from", "start position", "date"]), gen_expr(rng, d)),
+    19 => format!("function({}) {}", rng.pick(&["", "x", "x, y", "x: number", "x y: string, k"]), gen_expr(rng, d)),
+    20 => format!("(function(x) {})({})", gen_expr(rng, d), gen_expr(rng, d)),
+    21 => format!("{} between {} and {}", gen_expr(rng, d), gen_expr(rng, d), gen_expr(rng, d)),
+    22 => format!("{} in {}", gen_expr(rng, d), gen_unary_tests(rng, d)),
+    23 => format!("{} instance of {}", gen_expr(rng, d), rng.pick(&TYPES)),
+    24 => format!("{}{}..{}{}", rng.pick(&["[", "(", "]"]), gen_expr(rng, d), gen_expr(rng, d), rng.pick(&["]", ")", "["])),
+    25 => format!("{} /* c */ {}", gen_expr(rng, d), rng.pick(&["", "// x"])),
+    26 => format!("{}, {}", gen_expr(rng, d), gen_expr(rng, d)),
+    27 => format!("function({}) external {{java: {{class: \"c\", method signature: \"m\"}}}}", rng.pick(&["", "x"])),
+    _ => gen_literal(rng),
+  }
+}
+
+fn gen_unary_tests(rng: &mut Rng, depth: u32) -> String {
+  let one = |rng: &mut Rng| match rng.below(6) {
+    0 => format!("{} {}", rng.pick(&["<", "<=", ">", ">=", "="]), gen_expr(rng, depth)),
+    1 => format!("[{}..{}]", gen_expr(rng, depth), gen_expr(rng, depth)),
+    2 => format!("({}..{}]", gen_expr(rng, depth), gen_expr(rng, depth)),
+    3 => "-".to_string(),
+    4 => format!("not({})", gen_expr(rng, depth)),
+    _ => gen_expr(rng, depth),
+  };
+  let n = 1 + rng.below(3);
+  let body = (0..n).map(|_| one(rng)).collect::<Vec<_>>().join(", ");
+  if rng.chance(1, 2) {
+    format!("({})", body)
+  } else {
+    body
+  }
+}
+
+/// String literals (plain and raw) of a Rust source text.
+fn rust_string_literals(src: &str) -> Vec<String> {
+  let cs: Vec<char> = src.chars().collect();
+  let mut out = vec![];
+  let mut i = 0;
+  while i < cs.len() {
+    let c = cs[i];
+    if c == '/' && i + 1 < cs.len() && cs[i + 1] == '/' {
+      while i < cs.len() && cs[i] != '\n' {
+        i += 1;
+      }
+    } else if c == 'r' && i + 1 < cs.len() && (cs[i + 1] == '"' || cs[i + 1] == '#') && (i == 0 || !(cs[i - 1].is_alphanumeric() || cs[i - 1] == '_')) {
+      let mut j = i + 1;
+      let mut hashes = 0;
+      while j < cs.len() && cs[j] == '#' {
+        hashes += 1;
+        j += 1;
+      }
+      if j < cs.len() && cs[j] == '"' {
+        j += 1;
+        let start = j;
+        let mut end = None;
+        while j < cs.len() {
+          if cs[j] == '"' && (1..=hashes).all(|k| j + k < cs.len() && cs[j + k] == '#') {
+            end = Some(j);
+            break;
+          }
+          j += 1;
+        }
+        if let Some(e) = end {
+          out.push(cs[start..e].iter().collect());
+          i = e + 1 + hashes;
+          continue;
+        }
+      }
+      i += 1;
+    } else if c == '\'' {
+      // char literal or lifetime: skip 'x' / '\x'
+      if i + 2 < cs.len() && cs[i + 1] == '\\' {
+        i += 3;
+        while i < cs.len() && cs[i] != '\'' {
+          i += 1;
+        }
+        i += 1;
+      } else if i + 2 < cs.len() && cs[i + 2] == '\'' {
+        i += 3;
+      } else {
+        i += 1;
+      }
+    } else if c == '"' {
+      let mut j = i + 1;
+      let mut s = String::new();
+      while j < cs.len() && cs[j] != '"' {
+        if cs[j] == '\\' && j + 1 < cs.len() {
+          match cs[j + 1] {
+            'n' => s.push('\n'),
+            't' => s.push('\t'),
+            'r' => s.push('\r'),
+            '\\' => s.push('\\'),
+            '"' => s.push('"'),
+            '\'' => s.push('\''),
+            '0' => s.push('\0'),
+            'u' => {
+              // \u{XXXX}
+              let mut k = j + 2;
+              let mut hex = String::new();
+              if k < cs.len() && cs[k] == '{' {
+                k += 1;
+                while k < cs.len() && cs[k] != '}' {
+                  hex.push(cs[k]);
+                  k += 1;
+                }
+                if let Some(ch) = u32::from_str_radix(&hex, 16).ok().and_then(char::from_u32) {
+                  s.push(ch);
+                }
+                j = k - 1;
+              }
+            }
+            '\n' => {
+              // line continuation
+              let mut k = j + 2;
+              while k < cs.len() && cs[k].is_whitespace() {
+                k += 1;
+              }
+              j = k - 2;
+            }
+            other => {
+              s.push('\\');
+              s.push(other);
+            }
+          }
+          j += 2;
+        } else {
+          s.push(cs[j]);
+          j += 1;
+        }
+      }
+      out.push(s);
+      i = j + 1;
+      continue;
+    } else {
+      i += 1;
+    }
+  }
+  out
+}
+
+fn scan_dir(dir: &str, out: &mut Vec<String>) {
+  if let Ok(rd) = std::fs::read_dir(dir) {
+    let mut paths: Vec<_> = rd.filter_map(|e| e.ok()).map(|e| e.path()).collect();
+    paths.sort();
+    for p in paths {
+      if p.is_dir() {
+        scan_dir(&p.to_string_lossy(), out);
+      } else if p.extension().map(|e| e == "rs").unwrap_or(false) {
+        if let Ok(src) = std::fs::read_to_string(&p) {
+          for l in rust_string_literals(&src) {
+            if !l.is_empty() && l.chars().count() <= 300 && !l.contains('├') && !l.contains('└') {
+              out.push(l);
+            }
+          }
+        }
+      }
+    }
+  }
+}
+
+const MUT_POOL: [&str; 40] = [
+  "(", ")", "[", "]", "{", "}", ",", ":", "\"", "\\", "'", "+", "-", "*", "/", "**", "..", ".", "=", "<", ">", "!=", "@", "#", " in ", " then ", " else ", " return ", " satisfies ", "for ",
+  "if ", "function(", "not(", " between ", " and ", "\\u", "\\uD83D", "𝒳", "\u{FEFF}", "\u{0}",
+];
+
+fn mutate(rng: &mut Rng, s: &str, others: &[String]) -> String {
+  let mut cs: Vec<char> = s.chars().collect();
+  let n = 1 + rng.below(3);
+  for _ in 0..n {
+    let len = cs.len();
+    match rng.below(9) {
+      0 if len > 0 => {
+        cs.remove(rng.below(len as u64) as usize);
+      }
+      1 if len > 0 => {
+        let i = rng.below(len as u64) as usize;
+        let c = cs[i];
+        cs.insert(i, c);
+      }
+      2 if len > 1 => {
+        let i = rng.below(len as u64 - 1) as usize;
+        cs.swap(i, i + 1);
+      }
+      3 if len > 0 => {
+        let i = rng.below(len as u64) as usize;
+        let rep: Vec<char> = rng.pick(&MUT_POOL).chars().collect();
+        cs.splice(i..i + 1, rep);
+      }
+      4 => {
+        let i = rng.below(len as u64 + 1) as usize;
+        let ins: Vec<char> = rng.pick(&MUT_POOL).chars().collect();
+        cs.splice(i..i, ins);
+      }
+      5 if len > 0 => {
+        cs.truncate(rng.below(len as u64) as usize);
+      }
+      6 if len > 0 => {
+        let i = rng.below(len as u64) as usize;
+        cs.drain(..i);
+      }
+      7 if !others.is_empty() => {
+        let o: Vec<char> = rng.pick(others).chars().collect();
+        let op: Vec<char> = rng.pick(&[" + ", " - ", ".", " in ", ", ", "(", "[", " "]).chars().collect();
+        cs.extend(op);
+        cs.extend(o);
+      }
+      _ if len > 0 => {
+        // digit bump: numbers become other (small) numbers
+        let i = rng.below(len as u64) as usize;
+        if cs[i].is_ascii_digit() {
+          cs[i] = char::from(b'0' + rng.below(10) as u8);
+        }
+      }
+      _ => {}
+    }
+  }
+  cs.into_iter().collect()
+}
+
+fn random_unicode(rng: &mut Rng) -> String {
+  let n = 1 + rng.below(24);
+  let mut s = String::new();
+  for _ in 0..n {
+    let c = match rng.below(12) {
+      0 => rng.range(0, 0x7F) as u32,
+      1 => rng.range(0x80, 0x7FF) as u32,
+      2 => rng.range(0x800, 0xFFFF) as u32,
+      3 => rng.range(0x10000, 0x10FFFF) as u32,
+      4 => *rng.pick(&[0x09u32, 0x0A, 0x0B, 0x0C, 0x0D, 0x20, 0x85, 0xA0, 0x1680, 0x180E, 0x2000, 0x200B, 0x200C, 0x200D, 0x2028, 0x2029, 0x202F, 0x205F, 0x3000, 0xFEFF]),
+      5 => *rng.pick(&[0xB7u32, 0x300, 0x36F, 0x203F, 0x2040, 0x37E, 0xD7, 0xF7, 0x2FF, 0x370, 0x1FFF, 0x2070, 0x218F, 0x2C00, 0x2FEF, 0x3001, 0xD7FF, 0xF900, 0xFDCF, 0xFDF0, 0xFFFD, 0xEFFFF, 0xF0000]),
+      6 => *rng.pick(&['"', '\\', '/', '*', '.', '-', '+', '\'', '(', '[', '{', '?', '_']) as u32,
+      7 => rng.range('0' as i64, '9' as i64) as u32,
+      _ => rng.range('a' as i64, 'z' as i64) as u32,
+    };
+    if let Some(ch) = char::from_u32(c) {
+      s.push(ch);
+    }
+  }
+  s
+}
+
+fn deep_inputs(depth: usize) -> Vec<(String, String)> {
+  let d = depth;
+  let rep = |s: &str, n: usize| s.repeat(n);
+  vec![
+    ("parens".into(), format!("{}1{}", rep("(", d), rep(")", d))),
+    ("lists".into(), format!("{}1{}", rep("[", d), rep("]", d))),
+    ("contexts".into(), format!("{}1{}", rep("{a: ", d), rep("}", d))),
+    ("if".into(), format!("{}1{}", rep("if true then ", d), rep(" else 0", d))),
+    ("negation".into(), format!("{}1", rep("-", d))),
+    ("negation-paren".into(), format!("{}1{}", rep("-(", d), rep(")", d))),
+    ("not".into(), format!("{}true{}", rep("not(", d), rep(")", d))),
+    ("addition-right".into(), format!("{}1{}", rep("1+(", d), rep(")", d))),
+    ("addition-left".into(), format!("1{}", rep("+1", d))),
+    ("exponent".into(), format!("1{}", rep("**1", d))),
+    ("calls".into(), format!("{}1{}", rep("abs(", d), rep(")", d))),
+    ("path".into(), format!("x{}", rep(".a", d))),
+    ("filters".into(), format!("[1]{}", rep("[1]", d))),
+    ("for".into(), format!("{}1", rep("for i in [1] return ", d))),
+    ("some".into(), format!("{}true", rep("some i in [1] satisfies ", d))),
+    ("functions".into(), format!("{}1", rep("function(x) ", d))),
+    ("invocations".into(), format!("{}1{}", rep("(function(x) x)(", d), rep(")", d))),
+    ("context-chain".into(), format!("{{a0: 1{}}}", (1..d).map(|i| format!(", a{}: a{} + 1", i, i - 1)).collect::<String>())),
+    ("open-parens".into(), rep("(", d)),
+    ("open-brackets".into(), rep("[", d)),
+    ("open-braces".into(), rep("{a:", d)),
+    ("quotes".into(), rep("\"", d)),
+    ("comment-open".into(), format!("/*{}", rep("*", d))),
+    ("between".into(), format!("1{}", rep(" between 0 and 2", d))),
+    ("in-tests".into(), format!("1 in {}1{}", rep("(", d), rep(")", d))),
+    ("range-nest".into(), format!("{}1..2{}", rep("[", d), rep("]", d))),
+    ("instance-of".into(), format!("1 instance of {}number{}", rep("list<", d), rep(">", d))),
+    ("name-parts".into(), rep("a ", d)),
+    ("name-symbols".into(), format!("a{}", rep("-a", d))),
+    ("unicode-escapes".into(), format!("\"{}\"", rep("\\uD83D\\uDC0E", d))),
+  ]
+}
+
+struct Obs {
+  input: String,
+  family: String,
+  /// one word per entry point + evaluation, or the way the child ended
+  words: Vec<String>,
+  death: Option<String>,
+}
+
+/// Runs the inputs through batch children on `workers` threads.
+fn run_batches(inputs: &[(String, String)], workers: usize, batch: usize, per_input_ms: u64) -> Vec<Obs> {
+  let chunks: Vec<&[(String, String)]> = inputs.chunks(batch).collect();
+  let next = std::sync::atomic::AtomicUsize::new(0);
+  let results: Mutex<Vec<(usize, Vec<Obs>)>> = Mutex::new(vec![]);
+  std::thread::scope(|sc| {
+    for _ in 0..workers {
+      sc.spawn(|| loop {
+        let ci = next.fetch_add(1, std::sync::atomic::Ordering::SeqCst);
+        if ci >= chunks.len() {
+          break;
+        }
+        let chunk = chunks[ci];
+        let mut obs: Vec<Obs> = vec![];
+        let mut start = 0;
+        while start < chunk.len() {
+          let rest = &chunk[start..];
+          let payload = serde_json::to_string(&rest.iter().map(|(_, s)| s.clone()).collect::<Vec<String>>()).unwrap();
+          let (desc, out) = util::child(&["c05", "batch"], &payload, per_input_ms * rest.len() as u64 + 5000);
+          let mut done = 0;
+          let mut begun: Option<usize> = None;
+          for line in out.lines() {
+            let mut it = line.split(' ');
+            match it.next() {
+              Some("B") => begun = it.next().and_then(|x| x.parse().ok()),
+              Some("R") => {
+                let i: usize = it.next().and_then(|x| x.parse().ok()).unwrap_or(usize::MAX);
+                if i == done && i < rest.len() {
+                  obs.push(Obs { input: rest[i].1.clone(), family: rest[i].0.clone(), words: it.map(|s| s.to_string()).collect(), death: None });
+                  done += 1;
+                }
+              }
+              _ => {}
+            }
+          }
+          if desc == "ok" && done == rest.len() {
+            break;
+          }
+          if desc == "timeout" {
+            // the output of a killed child is lost: run this batch's inputs one by one
+            for (fam, inp) in rest {
+              let payload = serde_json::to_string(&vec![inp.clone()]).unwrap();
+              let (d1, o1) = util::child(&["c05", "batch"], &payload, per_input_ms + 5000);
+              let words: Vec<String> = o1.lines().find(|l| l.starts_with("R 0 ")).map(|l| l[4..].split(' ').map(|s| s.to_string()).collect()).unwrap_or_default();
+              let death = if d1 == "ok" { None } else { Some(d1) };
+              obs.push(Obs { input: inp.clone(), family: fam.clone(), words, death });
+            }
+            break;
+          }
+          // the child died while working on input `done` (announced by `B done`)
+          let culprit = begun.unwrap_or(done).max(done).min(rest.len() - 1);
+          obs.push(Obs { input: rest[culprit].1.clone(), family: rest[culprit].0.clone(), words: vec![], death: Some(desc.clone()) });
+          start += culprit + 1;
+        }
+        results.lock().unwrap().push((ci, obs));
+      });
+    }
+  });
+  let mut r = results.into_inner().unwrap();
+  r.sort_by_key(|(i, _)| *i);
+  r.into_iter().flat_map(|(_, o)| o).collect()
+}
+
+/// Traced run of one entry point in a child whose stdout goes to a file.
+fn traced(entry: &str, input: &str, file: &str, timeout_ms: u64) -> Option<String> {
+  use std::io::Write;
+  use std::process::{Command, Stdio};
+  let exe = std::env::current_exe().ok()?;
+  let out = std::fs::File::create(file).ok()?;
+  let mut ch = Command::new(exe).args(["child", "c05", "trace", entry]).stdin(Stdio::piped()).stdout(Stdio::from(out)).stderr(Stdio::null()).spawn().ok()?;
+  {
+    let mut si = ch.stdin.take()?;
+    let _ = si.write_all(input.as_bytes());
+  }
+  let start = std::time::Instant::now();
+  loop {
+    match ch.try_wait() {
+      Ok(Some(_)) => break,
+      Ok(None) => {
+        if start.elapsed().as_millis() as u64 > timeout_ms {
+          let _ = ch.kill();
+          let _ = ch.wait();
+          return None;
+        }
+        std::thread::sleep(std::time::Duration::from_millis(1));
+      }
+      Err(_) => return None,
+    }
+  }
+  std::fs::read(file).ok().map(|b| String::from_utf8_lossy(&b).to_string())
+}
+
+/// Events of a trace in the driver model's notation, the lexer answers and the index of the
+/// failing reduce action.
+fn trace_events(text: &str) -> (Vec<String>, Vec<String>, i64, String) {
+  let mut ev = vec![];
+  let mut toks = vec![];
+  let mut reductions: i64 = 0;
+  let mut result = String::new();
+  let mut ended = None;
+  for line in text.lines() {
+    if let Some(r) = line.strip_prefix("NEW-STATE: ") {
+      ev.push(format!("(S {})", r.trim()));
+    } else if let Some(r) = line.strip_prefix("  lexer: yy_char=") {
+      ev.push(format!("(T {})", r.trim()));
+      toks.push(r.trim().to_string());
+    } else if let Some(r) = line.strip_prefix("  reducing_using_rule = ") {
+      ev.push(format!("(R {})", r.trim()));
+      reductions += 1;
+    } else if let Some(r) = line.strip_prefix("  new_state = ") {
+      ev.push(format!("(N {})", r.trim()));
+    } else if line == "ERROR 1" {
+      ev.push("(E1)".to_string());
+      ended = Some("syntaxError");
+    } else if line == "ERROR" {
+      ev.push("(E)".to_string());
+      ended = Some("syntaxError");
+    } else if line == "* ACCEPT *" {
+      ended = Some("accept");
+    } else if let Some(r) = line.strip_prefix("#RESULT ") {
+      result = r.trim().to_string();
+    }
+  }
+  let mut fail_at = -1;
+  let outcome = match ended {
+    Some(e) => e.to_string(),
+    None => {
+      if result.starts_with("panic") {
+        "panic".to_string()
+      } else if ev.last().map(|e| e.starts_with("(R")).unwrap_or(false) {
+        fail_at = reductions - 1;
+        "actionError".to_string()
+      } else {
+        toks.push("err".to_string());
+        "lexerError".to_string()
+      }
+    }
+  };
+  ev.push(format!("(result {})", outcome));
+  (ev, toks, fail_at, result)
+}
+
+fn rel(loc: &str) -> String {
+  loc.trim_start_matches("/repo/").to_string()
+}
+
+pub fn run(cfg: &Cfg) -> Report {
+  let mut rep = Report::new(
+    "C05",
+    "process family: an input is non-trivial when at least one parser entry point accepts it (a syntax tree is built, reduce actions and — for parse_expression — the evaluator run) or when it belongs to the deep-nesting family; lexer family: the fragment yields at least two tokens before the end; trace family: the traced run performs at least one reduction",
+  );
+  install_hook();
+  let thorough = cfg.tier == "thorough";
+  let mut rng = Rng::new(cfg.seed);
+  let mut model = Model::start(&cfg.driver);
+  let scratch = std::path::Path::new(&cfg.report).parent().map(|p| p.to_path_buf()).unwrap_or_else(std::env::temp_dir);
+
+  // tables as the driver sees them (regenerated by translate/lalr.py in this run)
+  let tables = model.ask("(c05 tables)");
+  rep.extra.insert("lalr_tables".into(), json!(tables));
+  if !tables.contains("(ok true)") {
+    rep.disagree(Kind::ImplVsModel, "lalr-tables", "regenerated LALR tables violate the linear safety conditions", &tables, "tablesOk = false", "tablesOk = true");
+  }
+
+  // ------------------------------------------------------------------ lexer: tokens / no panic / progress
+  {
+    struct C {
+      input: String,
+      keys: Vec<String>,
+      flags: (bool, bool, bool, bool),
+      imp: Result<Vec<(i32, String, usize)>, String>,
+    }
+    let mut cases: Vec<C> = vec![];
+    let n = if thorough { 200000 } else { 6000 };
+    let words = ["a", "in", "item", "x", "é", "b c", "a-b", "date", "time", "number", "date and time", "duration", "in+x", "for", "return"];
+    let mut fixed: Vec<(&str, (bool, bool, bool, bool))> = vec![
+      ("in+x in [1] return 1", (false, false, false, true)),
+      ("in", (false, false, false, true)),
+      ("x in", (false, false, false, true)),
+      ("a in in", (false, false, false, true)),
+      ("item", (false, false, false, true)),
+      ("\"\\uD83D\\uDE4F\"", (false, false, false, false)),
+      ("\"\\uD83D\\uDC0E\"", (false, false, false, false)),
+      ("\"\\uD83D", (false, false, false, false)),
+      ("\"\\U10FFFF\\U110000\"", (false, false, false, false)),
+      ("/* never closed", (false, false, false, false)),
+      ("// only a comment", (false, false, false, false)),
+      ("", (false, false, false, false)),
+      ("            ", (false, false, false, false)),
+      ("#", (false, false, false, false)),
+    ];
+    fixed.push(("not(1) and 1 and 2", (true, true, false, false)));
+    for (inp, flags) in &fixed {
+      let scope = Scope::default();
+      let imp = impl_tokens(&scope, inp, *flags, 64);
+      cases.push(C { input: inp.to_string(), keys: vec![], flags: *flags, imp });
+    }
+    for i in 0..n {
+      let scope = Scope::default();
+      for _ in 0..rng.below(4) {
+        let w = rng.pick(&words);
+        let parts: Vec<&str> = w.split(' ').collect();
+        scope.set_entry(&Name::new(&parts), Value::Number(FeelNumber::from_i128(1)));
+      }
+      let mut keys: Vec<String> = scope.flatten_keys().into_iter().collect();
+      keys.sort();
+      let input = match i % 4 {
+        0 => random_unicode(&mut rng),
+        1 => {
+          let mut s = String::new();
+          for _ in 0..(1 + rng.below(8)) {
+            s.push_str(*rng.pick(&words));
+            s.push_str(*rng.pick(&[" ", "  ", "", "-", "+", ".", "/", "*", "'", "\t", "(", "[", ":", " in ", "\u{A0}"]));
+          }
+          s
+        }
+        2 => {
+          let e = gen_expr(&mut rng, 2);
+          if rng.chance(1, 3) {
+            mutate(&mut rng, &e, &[])
+          } else {
+            e
+          }
+        }
+        _ => {
+          let mut s = random_unicode(&mut rng);
+          s.push_str(*rng.pick(&["\"", "\\u", "\\uD83D\\uDE4F", "/*", "//", "*/", "\\U0001F40E", "\"\\u00e9\""]));
+          s.push_str(&random_unicode(&mut rng));
+          s
+        }
+      };
+      let flags = (rng.chance(1, 4), rng.chance(1, 4), rng.chance(1, 4), rng.chance(1, 3));
+      let imp = impl_tokens(&scope, &input, flags, 64);
+      cases.push(C { input, keys, flags, imp });
+    }
+    let reqs: Vec<String> = cases.iter().map(|c| tokenize_request(&c.keys, &c.input, c.flags, 64)).collect();
+    let answers = model.ask_batch(&reqs);
+    for (c, a) in cases.iter().zip(answers.iter()) {
+      let ntok = c.imp.as_ref().map(|t| t.len()).unwrap_or(0);
+      rep.case(&format!("lexer|{:?}|{:?}|{}", c.keys, c.flags, c.input), ntok >= 3 || c.imp.is_err());
+      rep.hit("lexer:cases");
+      let shown = format!("keys={:?} flags(unary_tests,between,type_name,till_in)={:?} input={:?}", c.keys, c.flags, c.input);
+      if let Err((what, imp, exp)) = compare_streams(&c.imp, a) {
+        rep.disagree(Kind::ImplVsModel, "lexer-tokens", &format!("lexer token stream: {}", what), &shown, &imp, &exp);
+      }
+      match &c.imp {
+        Err(_) => {
+          rep.hit("lexer:panic");
+          let loc = LAST_PANIC.lock().ok().and_then(|g| g.clone()).map(|l| rel(&l)).unwrap_or_default();
+          // the location of the *last* panic is only reliable right after the call; re-run
+          let loc = match located(|| dmntk_feel_parser::verif::tokenize(&scope_with(&c.keys), TT::StartExpression, &c.input, c.flags, 64)) {
+            Err(l) => l,
+            Ok(_) => loc,
+          };
+          rep.disagree(Kind::ImplVsSpec, "lexer-no-panic", &format!("panic {} (lexer)", loc), &shown, "panic", "a token or a lexer error");
+        }
+        Ok(toks) => {
+          if toks.last().map(|t| t.0 == -1).unwrap_or(false) {
+            rep.hit("lexer:error");
+          }
+          // progress: every token other than YyUndef / YyEof / error moves the cursor forward
+          let mut prev = 0usize;
+          for (k, t) in toks.iter().enumerate() {
+            if k == 0 {
+              continue; // the start token
+            }
+            let stalls = t.2 <= prev && t.0 != TT::YyUndef as i32 && t.0 != TT::YyEof as i32 && t.0 != -1;
+            if t.2 < prev || stalls {
+              rep.disagree(Kind::ImplVsSpec, "lexer-progress", "a token does not advance the cursor", &shown, &format!("{:?}", toks), "positions strictly increasing");
+              break;
+            }
+            prev = t.2;
+          }
+        }
+      }
+      if rep.samples.len() < 3 {
+        rep.sample(json!({"family": "lexer-tokens", "request": tokenize_request(&c.keys, &c.input, c.flags, 64), "model": a, "implementation": format!("{:?}", c.imp)}));
+      }
+    }
+  }
+
+  // ------------------------------------------------------------------ inputs for the parser
+  let mut literals: Vec<String> = vec![];
+  scan_dir("/repo/feel-parser/src/tests", &mut literals);
+  scan_dir("/repo/feel-evaluator/src/tests", &mut literals);
+  let mut seen = HashSet::new();
+  literals.retain(|l| seen.insert(l.clone()));
+  rep.extra.insert("test_literals_found".into(), json!(literals.len()));
+  if literals.is_empty() {
+    rep.notes.push("no string literals found under /repo/feel-parser/src/tests and /repo/feel-evaluator/src/tests".into());
+  }
+
+  let mut inputs: Vec<(String, String)> = vec![];
+  // known crashers and near misses first (corpus)
+  for s in [
+    "for in+x in [1] return 1",
+    "some in-x in [1] satisfies true",
+    "every in in [1] satisfies true",
+    "for in in [1] return 1",
+    "{f: function(n) f(n), r: f(1)}.r",
+    "",
+    " ",
+    "\"",
+    "(",
+    "1 +",
+    "{",
+    "function(",
+    "@",
+    "1 in",
+  ] {
+    inputs.push(("corpus".into(), s.to_string()));
+  }
+  let n_grammar = if thorough { 250000 } else { 2500 };
+  for _ in 0..n_grammar {
+    let d = 1 + rng.below(4) as u32;
+    let e = match rng.below(8) {
+      0 => gen_unary_tests(&mut rng, d),
+      1 => format!("{{{}: {}}}", rng.pick(&NAMES), gen_expr(&mut rng, d)),
+      _ => gen_expr(&mut rng, d),
+    };
+    inputs.push(("grammar".into(), e));
+  }
+  if !literals.is_empty() {
+    let per = if thorough { 100 } else { 1 };
+    for l in &literals {
+      inputs.push(("test-literal".into(), l.clone()));
+      for _ in 0..per {
+        inputs.push(("mutation".into(), mutate(&mut rng, l, &literals)));
+      }
+    }
+  }
+  for _ in 0..(if thorough { 60000 } else { 800 }) {
+    inputs.push(("unicode".into(), random_unicode(&mut rng)));
+  }
+  for d in [1usize, 2, 10, 50, 100, 150, 200] {
+    for (fam, s) in deep_inputs(d) {
+      inputs.push((format!("deep:{}", fam), s));
+    }
+  }
+  let mut seen = HashSet::new();
+  inputs.retain(|(_, s)| seen.insert(s.clone()));
+
+  // ------------------------------------------------------------------ process-level runner (validation)
+  let workers = std::thread::available_parallelism().map(|n| n.get()).unwrap_or(4).min(12);
+  let t0 = std::time::Instant::now();
+  let obs = run_batches(&inputs, workers, 100, if thorough { 4000 } else { 2000 });
+  rep.extra.insert("process_runner_wall_s".into(), json!(t0.elapsed().as_secs_f64()));
+  rep.extra.insert("process_runner_workers".into(), json!(workers));
+  let entry_names: Vec<&str> = ENTRIES.iter().copied().chain(std::iter::once("evaluate")).collect();
+  for o in &obs {
+    let fam = o.family.split(':').next().unwrap_or("").to_string();
+    let accepted = o.words.iter().take(ENTRIES.len()).any(|w| w == "ok");
+    rep.case(&format!("process|{}", o.input), accepted || fam == "deep");
+    rep.hit(&format!("process:family={}", fam));
+    if accepted {
+      rep.hit("process:accepted-by-some-entry");
+    }
+    if let Some(w) = o.words.last() {
+      rep.hit(&format!("process:evaluate={}", if w.starts_with("panic") { "panic" } else { w }));
+    }
+    if let Some(d) = &o.death {
+      let phase = if o.words.is_empty() { "parse-or-evaluate" } else { "after-results" };
+      rep.disagree(
+        Kind::ImplVsSpec,
+        "process",
+        &format!("process death {} during {} (family {})", d, phase, fam),
+        &o.input,
+        &format!("child process ended with {}", d),
+        "every entry point returns a tree or an error; evaluation returns a value",
+      );
+      continue;
+    }
+    for (k, w) in o.words.iter().enumerate() {
+      if let Some(loc) = w.strip_prefix("panic@") {
+        let entry = entry_names.get(k).copied().unwrap_or("?");
+        let who = if entry == "evaluate" { "evaluate" } else { "parser" };
+        rep.disagree(
+          Kind::ImplVsSpec,
+          "process",
+          &format!("panic {} ({})", loc, who),
+          &o.input,
+          &format!("{} panicked at {}", entry, loc),
+          "a tree, a value or an error",
+        );
+      }
+    }
+    if rep.samples.len() < 8 && accepted {
+      rep.sample(json!({"family": format!("process:{}", o.family), "input": o.input, "entries": ENTRIES, "observed": o.words}));
+    }
+  }
+  if obs.len() != inputs.len() {
+    rep.notes.push(format!("process runner: {} inputs, {} observations", inputs.len(), obs.len()));
+  }
+
+  // ------------------------------------------------------------------ lalr-trace: impl = model
+  {
+    let n = if thorough { 3000 } else { 250 };
+    let mut picks: Vec<(String, String)> = vec![];
+    for (k, e) in ENTRIES.iter().take(6).enumerate() {
+      picks.push((e.to_string(), ["1 + 2 * 3", "x", "1, 2", "[1, 2]", "{a: 1}", "< 5, [1..2]"][k].to_string()));
+    }
+    picks.push(("parse_expression".into(), "for in+x in [1] return 1".into()));
+    picks.push(("parse_expression".into(), "\"\\uD83D\\uDE4F\"".into()));
+    picks.push(("parse_expression".into(), "1 +".into()));
+    let pool: Vec<&(String, String)> = inputs.iter().filter(|(f, s)| (f == "grammar" || f == "mutation" || f == "test-literal") && s.chars().count() < 120).collect();
+    for _ in 0..n {
+      if pool.is_empty() {
+        break;
+      }
+      let (_, s) = rng.pick(&pool);
+      picks.push((rng.pick(&ENTRIES[..6]).to_string(), s.clone()));
+    }
+    let file = scratch.join(format!("c05-trace-{}.txt", std::process::id()));
+    let file = file.to_string_lossy().to_string();
+    let mut reqs = vec![];
+    let mut expected = vec![];
+    let mut shown = vec![];
+    for (entry, input) in &picks {
+      match traced(entry, input, &file, 10000) {
+        None => {
+          rep.disagree(Kind::ImplVsSpec, "lalr-trace", "timeout or process death in a traced parse", &format!("{} {:?}", entry, input), "no trace", "a trace ending in #RESULT");
+        }
+        Some(text) => {
+          let (ev, toks, fail_at, result) = trace_events(&text);
+          if result.starts_with("panic") {
+            rep.hit("trace:panic");
+            continue; // judged by the process family
+          }
+          if result.is_empty() {
+            rep.disagree(Kind::ImplVsSpec, "lalr-trace", "traced parse ended without a result", &format!("{} {:?}", entry, input), "no #RESULT line", "#RESULT ok|err");
+            continue;
+          }
+          let fuel = 3 * ev.len() + 16;
+          reqs.push(format!("(c05 drive ({}) {} {})", toks.join(" "), fail_at, fuel));
+          let reductions = ev.iter().filter(|e| e.starts_with("(R")).count();
+          expected.push((ev, reductions));
+          shown.push(format!("{} {:?}", entry, input));
+        }
+      }
+    }
+    let _ = std::fs::remove_file(&file);
+    let answers = model.ask_batch(&reqs);
+    for ((a, (ev, reductions)), s) in answers.iter().zip(expected.iter()).zip(shown.iter()) {
+      rep.case(&format!("trace|{}", s), *reductions > 0);
+      rep.hit("trace:cases");
+      rep.hit(&format!("trace:{}", ev.last().cloned().unwrap_or_default()));
+      let want = format!("({})", ev.join(" "));
+      if &want != a {
+        // first differing event
+        let am: Vec<&str> = a.trim_matches(|c| c == '(' || c == ')').split(") (").collect();
+        let wm: Vec<&str> = want.trim_matches(|c| c == '(' || c == ')').split(") (").collect();
+        let k = am.iter().zip(wm.iter()).position(|(x, y)| x != y).unwrap_or(am.len().min(wm.len()));
+        rep.disagree(
+          Kind::ImplVsModel,
+          "lalr-trace",
+          "LALR driver: the traced run of the parser differs from the model of the loop",
+          s,
+          &format!("event {}: {:?}", k, wm.get(k)),
+          &format!("event {}: {:?}", k, am.get(k)),
+        );
+      }
+      if rep.samples.len() < 11 {
+        rep.sample(json!({"family": "lalr-trace", "input": s, "events": ev.len(), "model": a.chars().take(300).collect::<String>()}));
+      }
+    }
+  }
+
+  rep.model_requests = model.requests;
+  rep
+}
+
+fn scope_with(keys: &[String]) -> Scope {
+  let scope = Scope::default();
+  for k in keys {
+    scope.set_entry(&Name::from(k.as_str()), Value::Number(FeelNumber::from_i128(1)));
+  }
+  scope
+}
+
